@@ -2,7 +2,7 @@
 (`vm_compute` in `coqc`, no extraction, no OCaml driver) and compared with what the extracted model
 printed for the same case.  Only case kinds whose input is a handful of numbers are translated:
 root, pos (C17), lag, ped (C01/C02), c11deal (C11), c18air (C18), c04rounds, c04lock (C04), rmw (C14),
-air (C12), rehash is too large for the kernel and is skipped."""
+filename (C18), export / exportraw (C03); air (C12), rehash is too large for the kernel and is skipped."""
 import os, random, subprocess, re
 
 
@@ -76,6 +76,36 @@ def translate(case, model):
             c1, c2 = cfgterm(1, t1, m1), cfgterm(2, t2, m2)
             return ("lbeqb (coeffs_coincide %s %s) %s && Bool.eqb (group_coincides %s %s) %s && lbeqb (shares_coincide %s %s) %s"
                     % (c1, c2, bits(kv["coeffs"]), c1, c2, "true" if kv["group"] == "1" else "false", c1, c2, bits(kv["shares"])))
+        if k == "filename" and len(f) >= 5:
+            kinds = {"invite": "FInvite", "commits": "FCommits", "deals": "FDeals", "responses": "FResponses", "master": "FMaster",
+                     "sign": "FSign", "collected": "FCollected", "reinit": "FReinit"}
+            hx = lambda x: "[]" if x == "-" else nlist(x)
+            b = "None" if f[4] == "none" else "(Some %s)" % hx(f[4])
+            return "leqb (file_name %s %s %s %s) %s" % (kinds.get(f[1], "FUnknown"), hx(f[2]), hx(f[3]), b, hx(m[1]) if len(m) > 1 else "[]")
+        if k in ("export", "exportraw"):
+            if k == "export":
+                batch, n = f[1], int(f[2])
+                v = f[3:]
+                if len(v) != 6 * n:
+                    return None
+                sigs = "; ".join("{| rs_file := %s; rs_batch := %s; rs_msgid := %s; rs_payload := %s; rs_sig := %s; rs_user := %s; rs_round := 0 |}"
+                                 % (v[6 * i + 4], v[6 * i], v[6 * i + 1], v[6 * i + 2], v[6 * i + 3], v[6 * i + 5]) for i in range(n))
+                term = "(match tget' (fold_left add_sig [%s]%%N []) %s%%N with Some b => export_batch b | None => Some [] end)" % (sigs, batch)
+            else:
+                n = int(f[1]); pos = 2; slots = []
+                for _ in range(n):
+                    sid, cnt = f[pos], int(f[pos + 1]); pos += 2
+                    es = []
+                    for _ in range(cnt):
+                        es.append("{| rs_file := %s; rs_batch := 0; rs_msgid := %s; rs_payload := %s; rs_sig := %s; rs_user := 0; rs_round := 0 |}"
+                                  % (f[pos + 2], sid, f[pos], f[pos + 1])); pos += 3
+                    slots.append("(%s, [%s])" % (sid, "; ".join(es)))
+                term = "(export_batch [%s]%%N)" % "; ".join(slots)
+            if len(m) >= 2 and m[1] == "refused":
+                return "match %s with None => true | Some _ => false end" % term
+            rows = [r.split(":") for r in (m[1].split(",") if len(m) > 1 else [])]
+            exp = "; ".join("(%s, {| ex_payload := %s; ex_sig := %s; ex_file := %s |})" % (r[0], r[1], r[2], r[3]) for r in rows)
+            return "match %s with Some out => exp_eqb (exp_sort out) [%s]%%N | None => false end" % (term, exp)
         if k == "rmw" and len(f) == 2:
             sc = "[" + "; ".join("true" if c == "A" else "false" for c in f[1]) + "]"
             pend = m[1].split("=", 1)[1]
@@ -88,7 +118,17 @@ def translate(case, model):
 
 HEADER = """From Coq Require Import String List NArith ZArith Bool.
 Require Import Lib.GoStr Ssz.Rotation Crypto.Zr Crypto.DealCheck Air.Reject Air.Terms Air.Lock Node.Serial.
+Require Import Fsm.EngineDefs Node.Types Node.Process Node.Export Node.FileName.
 Import ListNotations.
+Fixpoint exp_insert (x : N * exported) (l : list (N * exported)) : list (N * exported) :=
+  match l with [] => [x] | y :: r => if N.leb (fst x) (fst y) then x :: l else y :: exp_insert x r end.
+Definition exp_sort (l : list (N * exported)) : list (N * exported) := fold_right exp_insert [] l.
+Fixpoint exp_eqb (a b : list (N * exported)) : bool :=
+  match a, b with
+  | [], [] => true
+  | (i, x) :: a', (j, y) :: b' => N.eqb i j && N.eqb (ex_payload x) (ex_payload y) && N.eqb (ex_sig x) (ex_sig y) && N.eqb (ex_file x) (ex_file y) && exp_eqb a' b'
+  | _, _ => false
+  end.
 Fixpoint leqb (a b : list N) : bool :=
   match a, b with [], [] => true | x :: a', y :: b' => N.eqb x y && leqb a' b' | _, _ => false end.
 Fixpoint lbeqb (a b : list bool) : bool :=
